@@ -145,7 +145,7 @@ claim("C01", "model_checking",
       "spec/ParserLoop.tla models the implementation's main loop (source, requeue, closing step, the once-per-line repeat) with the variant "
       "that makes it terminate; TLC checks Termination under fairness; the pstep probe events of real parses are validated against it "
       "(Trace_ParserLoop, in batches), so every recorded parse follows the terminating model. Every document TLC enumerates from spec/MdBlocks.tla "
-      "over 16 line alphabets (2-4 lines exhaustively, 3-4 lines per abstract transition with VIEW, positional alphabets of 3-6 lines), every "
+      "over 20 line alphabets (2-4 lines exhaustively, 3-4 lines per abstract transition with VIEW, positional alphabets of 3-6 lines), every "
       "document of <=3/4 lines over two link-definition alphabets, every string over six inline alphabets (emphasis, links, code, raw HTML, "
       "comments), position / fix / repetition families and the fixed pools are parsed with a CPU-time watchdog (with and without final newline): "
       "an exception or watchdog hit is a violation keyed by exception type, innermost function and document shape. Work = Python "
@@ -163,8 +163,8 @@ claim("C02", "model_checking",
 
 claim("C03", "model_checking",
       "spec/MdBlocks.tla is the CommonMark block algorithm as a TLA+ state machine (containers, laziness, lists, headings, code, thematic "
-      "breaks, tabs, HTML blocks of kinds 2/6/7, link reference definitions) and spec/MdInline.tla the emphasis algorithm with code spans, "
-      "backslash escapes, inline links, raw HTML (tags, processing instructions, CDATA, declarations) and URI / email autolinks; TLC enumerates every document over 18 line alphabets (2 lines exhaustive; 3 lines per (abstract state, line shape) transition with "
+      "breaks, tabs, HTML blocks of all seven kinds, link reference definitions) and spec/MdInline.tla the emphasis algorithm with code spans, "
+      "backslash escapes, inline links, raw HTML (tags, processing instructions, CDATA, declarations) and URI / email autolinks; TLC enumerates every document over 20 line alphabets (2 lines exhaustive; 3 lines per (abstract state, line shape) transition with "
       "VIEW; positional alphabets for link reference definitions inside list items / block quotes, every tag name of HTML block start "
       "condition 6, and containers three deep) with the model's block tree -- link reference definitions included --, and every line over "
       "{a, space, *, _} up to 6/8, {a, space, *, `, \\} up to 6/7 and {a, [, ], (, ), *} up to 5/6 characters, raw-HTML tags (attribute forms x closers) and autolink / raw-HTML bodies x forms, with the model's HTML (placed in a "
